@@ -426,7 +426,7 @@ def walk(ctx, tables, pk, src_chip, w, h, live, links, endpoint_links, tag):
 # ----------------------------------------------------------------------
 def h_e2e(ctx, graph, w, h, torus, placer, method, radius=20, target="none",
           links="none", deadchip="none", via="hand", dems=(0,), W=3, cap=3,
-          pin=False, exc=False, rng="all", tb="all"):
+          pin=False, exc=False, rng="all", tb="all", K=1):
     from rig.place_and_route.machine import Machine, Cores, SDRAM, SRAM
     from rig.place_and_route.constraints import (
         LocationConstraint, ReserveResourceConstraint,
@@ -515,7 +515,7 @@ def h_e2e(ctx, graph, w, h, torus, placer, method, radius=20, target="none",
     if links == "sym":
         if via == "pnr":
             raise ValueError("SystemInfo holds concrete links")
-        linkset = c03.SymLinkSet(ctx, w, h, 1, fixed_dead, dead_chips)
+        linkset = c03.SymLinkSet(ctx, w, h, int(K), fixed_dead, dead_chips)
     else:
         linkset = PlainLinks(fixed_dead)
 
@@ -753,7 +753,7 @@ def h_e2e(ctx, graph, w, h, torus, placer, method, radius=20, target="none",
 # ----------------------------------------------------------------------
 DEFAULTS = dict(radius=20, target="none", links="none", deadchip="none",
                 via="hand", dems=(0,), W=3, cap=3, pin=0, exc=False,
-                rng="all", tb="all")
+                rng="all", tb="all", K=1)
 
 
 def _name(p):
@@ -771,6 +771,8 @@ def _name(p):
         s += " rng=%s" % p["rng"]
     if p["tb"] != "all":
         s += " tb=%s" % p["tb"]
+    if p["K"] != 1:
+        s += " K=%d" % p["K"]
     return s
 
 
